@@ -17,7 +17,7 @@ CLAIM = dict(cat="proof", design="§3 C11",
         "u* is off each one-sided value by half the residual; solve() dispatches to these samplers. Tie: the binary64 instance of the SAME definitions is compared bit for bit with the compiled solve() (flag, rho, u, P at sampling speeds "
         "within 1 ulp / 1e-9 / 1e-5 of every wave speed) and with the private helpers guess_P, f, fprime, solve_brent on every run; an independent 40-digit reference solver checks the real outputs. "
         "FINDING exhibited by the oracle: sampled exactly at (or one ulp inside) a vacuum front the solver returned NaN density/pressure (fan base rounds negative, std::pow(neg, non-integer)); "
-        "fix = std::max(0., base) at the six fan sites (hooks/c11_exact_vacuum_front_nan.patch); the model carries both variants (clamp) and all theorems hold for both.",
+        "fix = std::max(0., base) at the six fan sites (hooks/c11_exact_vacuum_front_nan.patch); the model carries both variants (clamp) and all theorems hold for both. Gas next to vacuum (one side empty, moving gas) is checked against the textbook fan solution on random states.",
    note="Trusted: Coq kernel + standard real-number axioms (as reported); extraction with ExtrOCamlFloats and glibc pow on both sides for the correspondence. "
         "PARTIAL: accuracy of P* is proved only for the Brent path (C11_star_state_accuracy_partial); when the Newton loop stops on its step test the residual bound needs concavity of f (not proved) - "
         "covered by the reference-solver oracle only (observed max deviation 3e-10 relative). Continuity is stated as coincidence of the one-sided expressions at fan head/tail, not as an epsilon-delta statement. "
